@@ -1042,7 +1042,7 @@ RULES = {
            'cases (random parameters, positions incl. the reorder point itself, capacities) and serial EBS-vs-converted-BS systems (1-6 stages, SLT 0-3, OLT 0, random demand, node ids incl. 0, '
            'edges given in shuffled order so that network.nodes is not listed upstream-to-downstream); multi-product stream: per-product position with units earmarked for the other products, '
            'orders per (supplier, raw material) = NBOM x finished-goods orders, and the supplier receives them one order lead time later',
-    'C05': 'holding/stockout rates k/4, in-transit rate None/0/positive, revenue 30%; 30% of the cases carry optional holding / stockout cost functions (a x + b x^2, not clamped; monitors only) and a shipment-pausing disruption; plus run_multiple_trials re-derived trial by trial with the same seeds (Poisson / uniform demand)',
+    'C05': 'holding/stockout rates k/4, in-transit rate None/0/positive, revenue 30%; 30% of the cases carry optional holding / stockout cost functions (a x + b x^2, not clamped; cost read-out of Sim/CostFn.v + monitors) and a shipment-pausing disruption; plus run_multiple_trials re-derived trial by trial with the same seeds (Poisson / uniform demand)',
     'C06': 'default mix (25% of the networks contain node index 0); relabellings onto 100..199 or onto 0..n; rand_seed 0 in 20% of the random-demand runs; every case also run period by period (initialize/step/close), relabelled (fresh case and reindex_nodes), and with random demand / Markov disruptions '
            '(same seed twice; realisations fed to the Coq model)'}
 
@@ -1095,7 +1095,7 @@ def gen_single(pid, rng, nmax, tmax, directed=False):
     # (below, once the configuration is final) 40% of the cases (C03: 50%): attributes specified on explicit products / per (node, product), explicit
     # vs network-implied bills of materials, nodes with predecessors AND the external supplier (simlib.gen_levels; plumbing only: the Stage-1 model
     # and the monitors see the same configuration)
-    if pid == 'C05' and rng.random() < 0.3:      # optional cost functions (they replace the rate for finished goods only; monitors only, the model has rates)
+    if pid == 'C05' and rng.random() < 0.3:      # optional cost functions (they replace the rate for finished goods only; model: cost read-out of Sim/CostFn.v)
         for v in c['nodes'].values():
             if rng.random() < 0.5: v['hf'] = [Fraction(rng.randint(0, 12), 4), Fraction(rng.choice([0, 0, 1, 2]), 4)]
             if rng.random() < 0.3: v['pf'] = [Fraction(rng.randint(0, 40), 4), Fraction(rng.choice([0, 0, 1, 2]), 4)]
@@ -1284,7 +1284,7 @@ def check_probe(chk, sig, case):
 
 
 def ensure_model(chk):
-    ok, log = coq_make(['Sim/Obs.vo'])
+    ok, log = coq_make(['Sim/Obs.vo', 'Sim/CostFn.vo'])
     if not ok:
         chk.broken.append(('Sim/Obs.vo', log[-800:]))
     return ok
@@ -1306,7 +1306,7 @@ def explore(chk, pid, n, n_multi=0, do_model=True):
     for c in cases:
         impl, cov = check_single(chk, pid, c)
         results.append((c, impl, cov))
-    ok = [(c, impl, cov) for c, impl, cov in results if impl is not None and not simlib.has_cost_fn(c)]
+    ok = [(c, impl, cov) for c, impl, cov in results if impl is not None]      # cases with cost functions: cost read-out of Sim/CostFn.v
     models = [None] * len(ok)
     if do_model and ok and ensure_model(chk):
         try:
